@@ -814,11 +814,11 @@ def gen_case(rng, kind=None):
 
 
 def gen(rng, tier):
-    n = 1500 if tier == 'quick' else 15000
+    n = 5000 if tier == 'quick' else 50000
     for _ in range(n):
         yield gen_case(rng)
     if tier == 'thorough':
-        for _ in range(1200):
+        for _ in range(3000):
             yield gen_case(rng, rng.choice(['cli_report', 'cli_report', 'cli_ids', 'cli_head', 'cli_export']))
 
 
@@ -885,14 +885,4 @@ def _widths(md):
     return w
 
 
-def _f30b(c, impl, model, fails):
-    """metadata export appends cells by position: a list shorter / longer than the widest entry's list (or a scalar
-    in its place) shifts the later columns or is refused"""
-    if c['kind'] not in ('mddf', 'export', 'cli_export') or not fails or impl != model:
-        return False
-    R = content(c)
-    md = R['omd'] if c['axis'] == 'observation' else R['smd']
-    return md is not None and any(len(x) > 1 for x in _widths(md).values())
-
-
-SIGNATURES = {'F20': _f20, 'F30b': _f30b}
+SIGNATURES = {'F20': _f20}
